@@ -31,9 +31,9 @@ def extend(g, api):
          f'{conn}::Connection::poll_transmit argument of anti_amplification_blocked',
          lambda: api.translate_expr(api.strip_comments(call_arg(api.read(conn), 'poll_transmit', 'anti_amplification_blocked')),
                                     {'segment_size': 'segment_size', 'num_datagrams': 'num_datagrams'}))
-    g.nat('minInitialSize', 'quinn-proto/src/lib.rs::MIN_INITIAL_SIZE',
+    g.nat('libMinInitialSize', 'quinn-proto/src/lib.rs::MIN_INITIAL_SIZE',
           lambda: api.const_value(api.read('quinn-proto/src/lib.rs'), 'MIN_INITIAL_SIZE'))
-    g.nat('initialMtu', 'quinn-proto/src/lib.rs::INITIAL_MTU',
+    g.nat('libInitialMtu', 'quinn-proto/src/lib.rs::INITIAL_MTU',
           lambda: api.const_value(api.read('quinn-proto/src/lib.rs'), 'INITIAL_MTU'))
     g.nat('resetTokenSize', 'quinn-proto/src/lib.rs::RESET_TOKEN_SIZE',
           lambda: api.const_value(api.read('quinn-proto/src/lib.rs'), 'RESET_TOKEN_SIZE'))
